@@ -1,8 +1,9 @@
 from common import *
 from rpcommon import *
 ID = 'C06'
-TRANSLATORS = []
-COQ_TARGETS = ['Properties_C06.vo']
+TRANSLATORS = [('consts2coq.py', ['coq/Gen/Consts.v'])]
+GEN_FILES = ['coq/Gen/Consts.v']
+COQ_TARGETS = ['Properties_C06.vo', 'Proof/ConstsRegp.vo']
 HARNESS_MODS = ['rp']
 RULE = ('cases: rp.serve serial mem16 style blocksize l:allocscript h:stream l:verdicts - a session history: receive, process, release, until the octet '
         'stream is used up; the memory backend records every call (kind, address, block size, payload octets) and answers with the scripted verdict '
